@@ -238,6 +238,28 @@ VerifyEnv(s, msg, now, SecretOf(_)) ==
   THEN [ok |-> TRUE, s |-> EnvDigest(s, msg).next]
   ELSE [ok |-> FALSE, s |-> s]
 
+-----------------------------------------------------------------------------
+(* Client connections (dns.Conn; RFC 8945 5.3, 5.3.2).  A transaction is a      *)
+(* request written and everything read until the next request is written.      *)
+(* Every signed message read within the transaction is judged as a first        *)
+(* response: against the MAC of the request AS WRITTEN and the full variables   *)
+(* -- however many messages were read before it in the same transaction (stray  *)
+(* datagrams, late answers to earlier requests, the request reflected back):    *)
+(* reading does not move the state, only the next signed request does.          *)
+(* AMBIG: an unsigned request written after a signed one (the statement says    *)
+(* nothing about the request MAC then); the state is left as it was and the     *)
+(* recorders do not produce that order.                                         *)
+(* A request itself is signed without request MAC (RFC 8945 5.1: message and    *)
+(* variables): ConnRequestDigest is what its MAC has to cover.  Which request   *)
+(* MAC a Conn gives a LATER request written on the same connection object is    *)
+(* outside the property statement (it speaks of generation and verification     *)
+(* "under the same request MAC"); recorded, not judged.                         *)
+ConnOpen == Session(<<>>)
+ConnWrite(c, msg) == LET p == SplitTsig(msg) IN IF p.st = "ok" THEN Session(p.t.mac) ELSE c
+ConnReadDigest(c, msg) == EnvDigest(Session(c.prev), msg)
+ConnRequestDigest(msg) == EnvDigest(Session(<<>>), msg)
+ConnAccept(c, msg, now, SecretOf(_)) == TsigAccept(msg, c.prev, FALSE, now, SecretOf)
+
 (* Faults between sender and receiver, on the sequence of octet strings sent. *)
 FlipBit(msg, bit) ==       \* bit 0 = most significant bit of the first octet
   LET i == (bit \div 8) + 1
